@@ -294,6 +294,8 @@ def protocols_case_st(draw, tier):
         names = G.lib_port_names(rec["proto"], platform)
         rec["sp"] = draw(G.port_st(platform, names, True, False, False))
         rec["dp"] = draw(G.port_st(platform, names, False, False, False))
+        if rec["sp"] and draw(st.sampled_from(range(3))) == 1:
+            rec["dp"] = None  # a condition on the source side only
     else:
         rec["sp"] = rec["dp"] = None
     items = []
